@@ -118,7 +118,11 @@ struct WItem {
     kind: WKind,
 }
 
-const TAGS: [(&str, &str); 10] = [
+const TAGS: [(&str, &str); 13] = [
+    // keys containing what a Go `uppercase_acronyms` table upper-cases in identifiers: wire keys stay as written
+    ("eventId", "payloadUrl"),
+    ("Id", "Url"),
+    ("apiUrl", "userId"),
     ("type", "content"),
     ("t", "c"),
     ("kind", "data"),
@@ -335,6 +339,9 @@ pub fn run(ctx: &Ctx, which: u8) -> (Spec, Report) {
             }
             if l == LangId::Scala && rng.chance(1, 3) {
                 c.package = "com.verif.deep.pkg".into();
+            }
+            if l == LangId::Go && rng.coin() {
+                c.uppercase_acronyms = vec!["ID".into(), "URL".into(), "Info".into()];
             }
             cfgs.push((l, c));
         }
